@@ -9,11 +9,20 @@ VDRIVE_OP(lts)
 	size_t n = c.at("n").get<size_t>();
 	size_t k = c.at("k").get<size_t>();
 	VATA::ExplicitLTS lts(n);
+	// "twice": the question is asked twice on the same initialised object, the second answer counts (a result must depend
+	// on the object's contents only).  (Adding edges AFTER init() and initialising again is not offered: init() sizes the
+	// per-state label sets once - a new label afterwards writes past them.  The property does not speak about it.)
 	for (const json& e : c.at("edges"))
 	{
 		lts.addTransition(e.at(0).get<size_t>(), e.at(1).get<size_t>(), e.at(2).get<size_t>());
 	}
 	lts.init();
+	if (c.value("twice", false))
+	{
+		SetStage("computeSimulation (first of two)");
+		lts.computeSimulation(n);
+		lts.computeSimulation(k);
+	}
 	VATA::Util::BinaryRelation out;
 	if (c.contains("part"))
 	{
